@@ -189,7 +189,7 @@ def rule_error_discipline(F, rep, rule="io-error-discipline"):
             key = "%s|%s|%s" % (fn["qual"], cs.callee_norm, ",".join(pp(a) for a in cs.args[1:])[:120])
             rep.require(ok, rule, key, cs.where(), why,
                         "%s: result of %s is not propagated: %s" % (fn["qual"], cs.callee_norm, why))
-    rep.floor(rule, "direct Read/Seek call sites", n_io, 3)
+    rep.floor(rule, "direct Read/Seek call sites", n_io, 2)
     rep.floor(rule, "call sites of I/O-performing in-crate functions", n_wrapped, 20)
     return n_io, n_wrapped
 
@@ -233,9 +233,13 @@ def rule_cache_protocol(F, rep, rule="cache-protocol", keys="exact"):
         writers.setdefault(name, []).append((fn, an, cs))
     allowed = {"contains_key": "elf_stream::CachingReader::load_bytes", "insert": "elf_stream::CachingReader::load_bytes",
                "get": "elf_stream::CachingReader::get_bytes", "clear": "elf_stream::CachingReader::clear_cache",
-               "default": "elf_stream::CachingReader::new"}
+               "default": "elf_stream::CachingReader::new", "new": "elf_stream::CachingReader::new"}
+    READERS = ("get", "contains_key")      # look-ups do not change the cache: either of the two functions may use either
     for name, sites in sorted(writers.items()):
         for fn, an, cs in sites:
+            if name in READERS and fn["qual"] in (allowed["get"], allowed["contains_key"]):
+                rep.ok(rule, "bufs.%s in %s" % (name, fn["qual"]), cs.where(), "cache look-up inside load_bytes / get_bytes")
+                continue
             rep.require(allowed.get(name) == fn["qual"], rule, "bufs.%s in %s" % (name, fn["qual"]), cs.where(),
                         "only %s may call bufs.%s" % (allowed.get(name), name),
                         "cache map method `%s` called from %s (allowed: %s)" % (name, fn["qual"], allowed.get(name, "nowhere")))
@@ -328,55 +332,114 @@ def rule_io_protocol(F, rep, rule="io-protocol"):
             if tr == "io::Read":
                 rep.require(m == "read_exact", rule, "read-method|%s|%s" % (fn["qual"], m), cs.where(), "read_exact (handles short reads / Interrupted)",
                             "%s calls Read::%s: short reads and ErrorKind::Interrupted are not handled" % (fn["qual"], m))
-    rep.floor(rule, "Read/Seek call sites", n, 3)
+    rep.floor(rule, "Read/Seek call sites", n, 2)      # 3 on the pinned tree (2 seeks, 1 read_exact); a shared seek helper leaves 2
     lb = F.fn("elf_stream::CachingReader::load_bytes")
     if lb is None:
         rep.bad(rule, "anchor", "src/elf_stream.rs", "anchor missing: load_bytes")
         return
-    an = analyze_fn(F, lb)
+    from .engine import program, State
+    from .prov import norm as pnorm
+    prog = program(F)
+    lan = analyze_fn(F, lb)
     w = wh(lb["span"])
-    p1, p2 = T.param(1), T.param(2)
-    seeks = [c for c in an.calls() if is_io_call(c) and c.callee["trait_method"]["name"] == "seek"]
-    reads = [c for c in an.calls() if is_io_call(c) and c.callee["trait_method"]["name"] == "read_exact"]
-    ins = [c for c in an.calls() if c.declared_norm.endswith("HashMap::insert")]
-    start = T.proj(p2, ("f", 0, "start"))
-    want_seek = T.agg("adt", "io::SeekFrom", 0, "Start", [T.cast("IntToInt", start, "usize", "u64")])
+    p2 = T.param(2)
+    # the function that performs the read: load_bytes itself, or a private helper only it calls (possibly one level down)
+    io_of = lambda an_: ([c for c in an_.calls() if is_io_call(c) and c.callee["trait_method"]["name"] == "seek"],
+                         [c for c in an_.calls() if is_io_call(c) and c.callee["trait_method"]["name"] == "read_exact"])
+    gan, gcall = lan, None
+    sk_, rd_ = io_of(lan)
+    if not sk_ and not rd_:
+        for c in lan.calls():
+            lf = prog.local_fn(c.callee)
+            if lf is not None and lf["qual"] in io_home(F) and lf["qual"] != lb["qual"] and any(io_of(analyze_fn(F, lf))):
+                gan, gcall = analyze_fn(F, lf), c
+                break
+    an = gan
+    seeks, reads = io_of(an)
     ok = len(seeks) == 1 and len(reads) == 1
-    rep.require(ok, rule, "load_bytes:shape", w, "one seek, one read_exact", "load_bytes has %d seek and %d read_exact calls" % (len(seeks), len(reads)))
+    rep.require(ok, rule, "load_bytes:shape", w, "one seek, one read_exact (in load_bytes or in the private helper that fetches for it)",
+                "load_bytes has %d seek and %d read_exact calls" % (len(seeks), len(reads)))
     if not ok:
         return
     sk, rd = seeks[0], reads[0]
-    rep.require(sk.args[1] is want_seek, rule, "load_bytes:seek-target", sk.where(), "seek(SeekFrom::Start(range.start))",
-                "load_bytes seeks to %s instead of SeekFrom::Start(range.start)" % pp(sk.args[1]))
-    same_reader = sk.arg_lvs[0] == rd.arg_lvs[0] and sk.arg_lvs[0][1] and sk.arg_lvs[0][1][-1][2] == "reader"
-    rep.require(same_reader, rule, "load_bytes:same-reader", rd.where(), "seek and read on self.reader", "seek and read_exact use different readers")
+    gw = wh(an.fn["span"])
+
+    def in_caller(t):
+        """a term of the fetching helper expressed in load_bytes' parameters"""
+        if gcall is None:
+            return t
+        stc = State(lan.exit_env.get(gcall.block, {}), gcall.facts)
+        cargs = [prog._stabilise(lan, stc, a_) for a_ in gcall.args]
+        return prog.subst(lan, stc, t, cargs, prog.gmap(an.fn, gcall.callee))
+    start = T.proj(p2, ("f", 0, "start"))
+    end = T.proj(p2, ("f", 1, "end"))
+    tgt = in_caller(sk.args[1])
+    good_seek = tgt is not None and tgt.op == "agg" and tgt.args[3] == "Start" and pnorm(tgt.args[4][0]) == pnorm(start)
+    rep.require(good_seek, rule, "load_bytes:seek-target", sk.where(), "seek(SeekFrom::Start(range.start))",
+                "load_bytes seeks to %s instead of SeekFrom::Start(range.start)" % (pp(tgt)[:120] if tgt is not None else "?"))
+    same_reader = sk.arg_lvs[0] == rd.arg_lvs[0]
+    if gcall is None:
+        same_reader = same_reader and bool(sk.arg_lvs[0][1]) and sk.arg_lvs[0][1][-1][2] == "reader"
+    rep.require(same_reader, rule, "load_bytes:same-reader", rd.where(), "seek and read on the same reader", "seek and read_exact use different readers")
     dom = an.dominates(sk.block, rd.block) and ("var", sk.result, "Ok") in rd.facts
     rep.require(dom, rule, "load_bytes:seek-before-read", rd.where(), "read_exact is dominated by the success edge of the seek",
                 "read_exact is reachable without a successful absolute seek to range.start (a previous read left the position elsewhere)")
-    # buffer = vec![0; range.len()]
+    # buffer = vec![0; range.len()]   (range.len(), end - start, end.saturating_sub(start) are the same length once start <= end <= stream_len)
     buf = rd.args[1]
+    lens = [in_caller(x.args[2][1]) for x in buf.subterms() if x.op == "call" and x.args[0] == "vec::from_elem"]
     want_len = T.call("iter::ExactSizeIterator::len", ("ops::Range<usize>",), [T.refval(p2)])
-    has_len = any(x.op == "call" and x.args[0] == "vec::from_elem" and x.args[2][1] is want_len for x in buf.subterms())
-    rep.require(has_len, rule, "load_bytes:buffer-len", rd.where(), "buffer is vec![0; range.len()]",
+    def is_len(t):
+        if t is None:
+            return False
+        if t is want_len or (t.op == "call" and t.args[0] == "iter::ExactSizeIterator::len" and pnorm(t.args[2][0]) in (pnorm(p2), ("agg", "ops::Range", "Range", (pnorm(start), pnorm(end))))):
+            return True
+        n_ = pnorm(t)
+        return n_ == ("-", pnorm(end), pnorm(start)) or n_ == ("call", "usize::saturating_sub", (pnorm(end), pnorm(start)))
+    rep.require(len(lens) == 1 and is_len(lens[0]), rule, "load_bytes:buffer-len", rd.where(), "buffer is vec![0; range.len()]",
                 "the buffer handed to read_exact is not range.len() bytes long: %s" % pp(buf)[:200])
-    # ordering: insert dominated by success of seek and read; inserted value is that buffer
+    # the fetching helper hands back exactly that buffer, and only when both calls succeeded
+    if gcall is not None:
+        for t, st in an.ret_leaves() or []:
+            if t.op == "agg" and t.args[3] == "Ok":
+                okk = ("var", rd.result, "Ok") in st.facts and ("var", sk.result, "Ok") in st.facts
+                rep.require(okk, rule, "fetch:ok-means-read", gw, "the helper returns Ok only after seek and read_exact succeeded",
+                            "%s returns Ok on a path where seek / read_exact did not both succeed" % an.fn["qual"])
+                v = t.args[4][0]
+                shares = any(x.op == "call" and x.args[0] == "vec::from_elem" and v.mentions(x) for x in buf.subterms())
+                rep.require(shares, rule, "fetch:value", gw, "the helper returns the buffer that was read into", "%s returns %s, not the buffer filled by read_exact" % (an.fn["qual"], pp(v)[:160]))
+    # ordering: insert dominated by success of the fetch; inserted value is that buffer
+    ins = [c for c in lan.calls() if c.declared_norm.endswith("HashMap::insert")]
     rep.require(len(ins) == 1, rule, "load_bytes:one-insert", w, "one insert", "%d inserts into the cache" % len(ins))
     for c in ins:
-        good = (an.dominates(rd.block, c.block) and ("var", rd.result, "Ok") in c.facts and ("var", sk.result, "Ok") in c.facts)
+        if gcall is None:
+            good = (lan.dominates(rd.block, c.block) and ("var", rd.result, "Ok") in c.facts and ("var", sk.result, "Ok") in c.facts)
+        else:
+            good = lan.dominates(gcall.block, c.block) and ("var", gcall.result, "Ok") in c.facts
         rep.require(good, rule, "load_bytes:insert-after-read", c.where(), "cache insert is dominated by the success edges of seek and read_exact",
                     "a buffer is inserted into the cache before/without the read having succeeded (a failed read leaves fabricated data cached)")
         v = c.args[2]
-        shares = any(x.op == "call" and x.args[0] == "vec::from_elem" for x in v.subterms()) and any(
-            x.op == "call" and x.args[0] == "vec::from_elem" and v.mentions(x) for x in buf.subterms())
+        if gcall is None:
+            shares = any(x.op == "call" and x.args[0] == "vec::from_elem" for x in v.subterms()) and any(
+                x.op == "call" and x.args[0] == "vec::from_elem" and v.mentions(x) for x in buf.subterms())
+        else:
+            shares = v is T.payload(gcall.result, "Ok")
         rep.require(shares, rule, "load_bytes:insert-value", c.where(), "the inserted value is the buffer that was read into",
                     "the cached value %s is not the buffer filled by read_exact" % pp(v)[:160])
     # Ok outcomes: either the key was already cached, or the insert happened
-    ck = [c for c in an.calls() if c.declared_norm.endswith("HashMap::contains_key")]
-    ps = an.paths()
-    for t, st in ([(t_, st_) for t_, st_, _ in ps] if ps is not None else (an.ret_leaves() or [])):
+    ck = [c for c in lan.calls() if c.declared_norm.endswith("HashMap::contains_key") or c.declared_norm.endswith("HashMap::get")]
+    ps = lan.paths()
+    for t, st in ([(t_, st_) for t_, st_, _ in ps] if ps is not None else (lan.ret_leaves() or [])):
         if t.op == "agg" and t.args[3] == "Ok":
-            cached = ck and (("true", ck[0].result) in st.facts or an.truth(st.facts, ck[0].result) is True)
-            inserted = ins and ("var", rd.result, "Ok") in st.facts and ("var", sk.result, "Ok") in st.facts
+            cached = False
+            for k_ in ck:
+                if k_.declared_norm.endswith("contains_key"):
+                    cached = cached or ("true", k_.result) in st.facts or lan.truth(st.facts, k_.result) is True
+                else:
+                    cached = cached or lan.variant_known(k_.result, "Some", st.facts) is True
+            if gcall is None:
+                inserted = ins and ("var", rd.result, "Ok") in st.facts and ("var", sk.result, "Ok") in st.facts
+            else:
+                inserted = ins and ("var", gcall.result, "Ok") in st.facts
             rep.require(bool(cached or inserted), rule, "load_bytes:ok-means-cached", w, "Ok only when cached or freshly read",
                         "load_bytes returns Ok on a path where the range is neither cached nor read")
 
@@ -444,18 +507,22 @@ def _closure_runs_after_load(F, cfn, rng):
         l = loads.get(c.args[0])
         if l is None:
             continue
-        # which capture is the range handed to get_bytes?
-        cap = rng
-        while cap.op in ("deref", "refval"):
-            cap = cap.args[0]
-        if cap.op == "proj" and cap.args[1][0] == "f" and cap.args[0] in (T.param(1), T.deref(T.param(1))):
-            k = cap.args[1][1]
-            if k < len(clo.args[4]):
-                v = clo.args[4][k]
-                v = pan.read(State_(pan, c), (v.args[0], v.args[1])) if v.op == "ref" else (v.args[0] if v.op == "refval" else v)
-                if v is l.args[1]:
-                    return l
+        # the range handed to get_bytes, with the closure's captures replaced by the values they had when it was created
+        from .engine import program, State
+        env_ty = norm(cfn["body"]["locals"][1]["ty"]) if len(cfn["body"]["locals"]) > 1 else ""
+        env = T.refval(clo) if env_ty.startswith("&") else clo
+        stc = State_(pan, c)
+        v = program(F).subst(pan, stc, rng, [env, T.agg("tuple", None, 0, None, [])])
+        if v is not None:
+            v = v.args[0] if v.op == "refval" else v
+            if v is l.args[1] or pnorm_eq(v, l.args[1]):
+                return l
     return None
+
+
+def pnorm_eq(a, b):
+    from .prov import norm as pnorm
+    return pnorm(a) == pnorm(b)
 
 
 def State_(an, cs):
